@@ -3,7 +3,7 @@ from checks import kern, modelstep
 
 TECHNIQUE = "symbolic execution of the real integration methods (Model.update_links/update_comps/flush_junctions and the Compartment/Junction/Timed kernels) on z3-real proxies with state merging and cuts; SMT obligations (z3, cvc5 portfolio); counterexamples replayed on the unpatched code"
 EXPLANATION = 'One real integration step (Model.update_links, Model.update_comps; Model.flush_junctions) is executed symbolically on micro-graphs wired from the real Compartment/Source/Sink/Timed/Junction/Residual classes, from an arbitrary valid pre-state (all stocks/rows >= 0, parameter values of any sign, symbolic dt and timescales, arbitrary stale per-step caches). Obligations: next stock == stock + recorded inflows - recorded outflows for every compartment (timed: summed over rows), cached outflow == recorded outflow, junction outflow == inflow and junction stays empty, initial flush preserves the total. Link flows are cut (fresh variables carrying the guarantees proved just before) before the compartment phase so the balance queries are linear. Bounds: micro-graphs as listed per group; |values| <= 1e9, dt in [1/365,5], timescales in [1e-3,1e3]; real arithmetic (tolerance 1e-9 relative, 1e-8 for C03). Outside: larger fan-outs, float rounding, multi-step interactions other than through the arbitrary pre-state.'
-GROUP_TIMEOUT = {"quick": 900, "thorough": 3000}
+GROUP_TIMEOUT = {"quick": 1800, "thorough": 3600}
 
 
 def groups(tier):
